@@ -39,7 +39,8 @@ CAUSES = ['stop', 'restart', 'decr', 'reload', 'reloadseq', 'reloadterm', 'kill'
           # a second termination arriving inside the grace period of a non-exclusive kill request
           'kill_then_decr', 'kill_then_set0', 'kill_then_kill', 'kill_then_incr']
 KIDS = [[], [], [{'beh': {}}], [{'beh': {'*': ['ignore']}}], [{'beh': {}}, {'beh': {'*': ['ignore']}}],
-        [{'beh': {'*': ['ignore']}, 'kids': [{'beh': {'*': ['ignore']}}]}]]
+        [{'beh': {'*': ['ignore']}, 'kids': [{'beh': {'*': ['ignore']}}]}],
+        [{'beh': {}}, {'beh': {'*': ['ignore']}}, {'beh': {'*': ['ignore']}}]]
 
 
 def reactions(gt):
@@ -92,6 +93,11 @@ def materialise(spec, v):
     setvia = rnd.random() < .2 and cause not in ('max_age',)
     h = {'kill_latency': rnd.choice([0.0, 0.0005, 0.002]), 'watchers': [w], 'cause': cause, 'over': over,
          'steps': [], 'setvia': setvia}
+    if len(kids) >= 2 and rnd.random() < .6:
+        # one child vanishes (killed from outside and collected by its parent) at a kernel-call boundary of the
+        # termination: between the listing of the children and their turn in the loop, or just before the
+        # escalation; the other children must still get the stop signal and the final SIGKILL
+        h['kid_death'] = [rnd.choice([1, 1, 2, 2, 3, 4, 5, 6, 8, 12, 20, 30]), rnd.randint(0, 2)]
     if setvia:
         # configure stop_signal / graceful_timeout through `set` instead of the constructor
         w2 = dict(w)
@@ -182,6 +188,15 @@ def _history(w, h, res):
     t_cause = w.clock.now
     live0 = k.live(simhist.tag_of('a'))
     victims = None
+    if h.get('kid_death'):
+        off, idx = h['kid_death']
+
+        def vanish(kern, idx=idx):
+            kids = sorted(c.pid for c in kern.procs.values() if c.tag.startswith('kid:') and c.state == 'running')
+            if kids:
+                kern.schedule_death(kern.procs[kids[idx % len(kids)]], 0.0, 9, 'ext')
+                res.obs['children_vanished_during_termination'] += 1
+        k.inject[k.calls + off] = vanish
     if cause == 'stop':
         w.req('stop', name='a', waiting=True)
     elif cause == 'restart':
@@ -273,7 +288,7 @@ def _history(w, h, res):
         # R5: children
         if conf.get('stop_children'):
             kids = [c for c in k.procs.values() if c.orig_ppid == pid and c.created <= t0
-                    and (c.exit_t is None or c.exit_t > t0)]
+                    and (c.exit_t is None or c.exit_t > t0) and c.cause != 'ext']       # not the vanished child
             for c in kids:
                 res.obs['children_judged'] += 1
                 got = [s for (t, s, snd) in c.signals if snd == 'circus' and abs(t - t0) < EPS]
